@@ -3,7 +3,9 @@
    [deps_t] / [rdeps_t] are the node lists GetAncestors / GetDescendants return (depth-first with a
    visited map, since the repair of C19-F2/F3), [deps_query] / [rdeps_query] / [owners] /
    [list_query] the printed, sorted lines (label.PrintSorted compacts the sorted list since the
-   repair of C20-F1).
+   repair of C20-F1).  The query selector filters a node by the target it stands for (an alias stands for
+   the target it resolves to) since the repair of C20-F2: [passes_filters] is the type / tag /
+   exclude-tag / platform test on that target.
    (C20_rebuild_predicted needs the build model and is stated with it, not here.) *)
 From Grog Require Import Str Label Graph Select Select_proofs.
 
@@ -51,6 +53,15 @@ Theorem C20_declared_twice_printed :
 Proof. exact deps_query_declared_twice. Qed.
 Print Assumptions C20_declared_twice_printed.
 
+(* an alias is filtered like the target it stands for (deps --tag=x, deps, rdeps --exclude-tag=x, list --tag=x //...) *)
+Theorem C20_alias_filtered_printed :
+  deps_query (mkCfg [] [w_x] [] AllTargets w_linux false) wit_nodes [[]; [0]; [1]] 2 true = [] /\
+  deps_query all_cfg wit_nodes [[]; [0]; [1]] 2 true = [dslash ++ ch_colon :: w_al; dslash ++ ch_colon :: w_plain] /\
+  rdeps_query (mkCfg [] [] [w_x] AllTargets w_linux false) wit_nodes [[]; [0]; [1]] 0 true = [dslash ++ ch_colon :: w_al] /\
+  list_query wit_cfg wit_nodes wit_graph = [dslash ++ ch_colon :: w_tagged].
+Proof. exact deps_query_alias_filtered. Qed.
+Print Assumptions C20_alias_filtered_printed.
+
 (* the node lists are the de-duplicated enumerations of all dependency paths *)
 Theorem C20_deps_is_dedup : forall g n x, topo g -> (In x (deps_t g n) <-> In x (ancestors_set g n)).
 Proof. exact deps_t_is_ancestors_set. Qed.
@@ -66,28 +77,29 @@ Proof. exact deps_rdeps_inverse. Qed.
 Print Assumptions C20_inverse.
 
 (* the printed lines: exactly the labels of the (transitive / direct) dependencies and
-   dependants that pass the query selector *)
+   dependants whose target passes the filters (formerly stated with the code's filter, which let every alias
+   through: finding C20-F2) *)
 Theorem C20_deps_printed_exact : forall cfg ns g n s, topo g ->
   (In s (deps_query cfg ns g n true) <->
-   exists x, reach g x n /\ node_match (query_cfg cfg) (attr ns x) = true /\ s = print_label (nlabel (attr ns x))).
+   exists x, reach g x n /\ passes_filters cfg ns g x = true /\ s = print_label (nlabel (attr ns x))).
 Proof. exact deps_query_exact. Qed.
 Print Assumptions C20_deps_printed_exact.
 
 Theorem C20_rdeps_printed_exact : forall cfg ns g n s, topo g ->
   (In s (rdeps_query cfg ns g n true) <->
-   exists x, reach g n x /\ node_match (query_cfg cfg) (attr ns x) = true /\ s = print_label (nlabel (attr ns x))).
+   exists x, reach g n x /\ passes_filters cfg ns g x = true /\ s = print_label (nlabel (attr ns x))).
 Proof. exact rdeps_query_exact. Qed.
 Print Assumptions C20_rdeps_printed_exact.
 
 Theorem C20_deps_direct_exact : forall cfg ns g n s,
   (In s (deps_query cfg ns g n false) <->
-   exists x, In x (deps g n) /\ node_match (query_cfg cfg) (attr ns x) = true /\ s = print_label (nlabel (attr ns x))).
+   exists x, In x (deps g n) /\ passes_filters cfg ns g x = true /\ s = print_label (nlabel (attr ns x))).
 Proof. exact deps_query_direct_exact. Qed.
 Print Assumptions C20_deps_direct_exact.
 
 Theorem C20_rdeps_direct_exact : forall cfg ns g n s,
   (In s (rdeps_query cfg ns g n false) <->
-   exists x, x < size g /\ In n (deps g x) /\ node_match (query_cfg cfg) (attr ns x) = true
+   exists x, x < size g /\ In n (deps g x) /\ passes_filters cfg ns g x = true
              /\ s = print_label (nlabel (attr ns x))).
 Proof. exact rdeps_query_direct_exact. Qed.
 Print Assumptions C20_rdeps_direct_exact.
@@ -101,11 +113,28 @@ Theorem C20_owners_exact : forall ns files s,
 Proof. exact owners_exact. Qed.
 Print Assumptions C20_owners_exact.
 
-(* list: exactly the pattern and filter matches (the code's filter: an alias only has to match
-   the pattern -- known finding C20-F2) *)
+(* list: exactly the nodes matched by a pattern whose target passes the filters *)
 Theorem C20_list_exact : forall cfg ns g s,
   In s (list_query cfg ns g) <->
-  exists i, i < size g /\ node_matches_filters cfg (attr ns i) = true /\
-            node_matches_platform cfg (attr ns i) = true /\ s = print_label (nlabel (attr ns i)).
+  exists i, i < size g /\ matches_patterns (cpats cfg) (nlabel (attr ns i)) = true /\
+            passes_filters cfg ns g i = true /\ s = print_label (nlabel (attr ns i)).
 Proof. exact list_exact. Qed.
 Print Assumptions C20_list_exact.
+
+(* what "passes the filters" means, by kind: a target is tested itself, an alias passes iff its `actual` passes *)
+Theorem C20_filter_target : forall cfg ns g i,
+  nkind (attr ns i) = KTarget ->
+  passes_filters cfg ns g i = target_filters cfg (attr ns i) && node_matches_platform cfg (attr ns i).
+Proof. exact passes_filters_target. Qed.
+Print Assumptions C20_filter_target.
+
+Theorem C20_filter_alias : forall cfg ns g i d, topo g ->
+  nkind (attr ns i) = KAlias -> deps g i = [d] -> passes_filters cfg ns g i = passes_filters cfg ns g d.
+Proof. exact passes_filters_alias. Qed.
+Print Assumptions C20_filter_alias.
+
+(* the query selector (no patterns) is that test *)
+Theorem C20_query_filter_is_spec : forall cfg ns g x,
+  node_match (query_cfg cfg) ns g x = passes_filters cfg ns g x.
+Proof. exact query_match. Qed.
+Print Assumptions C20_query_filter_is_spec.
